@@ -468,7 +468,8 @@ class ExcelInPython:
         if num_chars < 0:
             return '#ERROR!'
         if not text:
-            return self.EmptyCell()
+            # the result of a text function is a text: the empty text, not a blank cell (which reads as 0 under &)
+            return ''
         if len(text) < num_chars:
             return text
         return text[0:num_chars]
@@ -478,8 +479,8 @@ class ExcelInPython:
             return '#NUM!'
         if num_chars < 0:
             return '#VALUE!'
-        if start_num > len(text):
-            return self.EmptyCell()
+        if not text or start_num > len(text):
+            return ''
         
         return text[start_num - 1:start_num + num_chars - 1]
     
@@ -534,7 +535,8 @@ class ExcelInPython:
         if num_chars < 0:
             return '#ERROR!'
         if not text:
-            return self.EmptyCell()
+            # the result of a text function is a text: the empty text, not a blank cell (which reads as 0 under &)
+            return ''
         if len(text) < num_chars:
             return text
         return text[len(text) - num_chars:]
